@@ -5,7 +5,7 @@ import posixpath
 from symx.common import is_sym
 from symx import logic as L
 from .world import World
-from .program import Program, show, do_query, QUERY_KINDS
+from .program import Program, show, do_query, QUERY_KINDS, EXTRA_KINDS
 from .common import Driver, veq, diff_sig
 from .skeletons import pick, bf_opts, U7, UN3, skeleton
 from .mutate import mutate
@@ -27,7 +27,7 @@ WITNESSES = {'quick': ['probe-inside-function', 'stale-dir-probed', 'failed-outp
              'thorough': ['probe-inside-function']}
 
 MODES = ['ok', 'raise_before', 'raise_after', 'no_create', 'nonjson']
-PROBE_KINDS = list(QUERY_KINDS)
+PROBE_KINDS = list(QUERY_KINDS) + list(EXTRA_KINDS)
 
 
 def families(tier):
